@@ -452,7 +452,7 @@ func TestCheck(t *testing.T) {
 		} else {
 			proto = func(c *config.Blockchain) { vchain.AllForks(c); c.MaxTraceableBlocks = 12 }
 		}
-		h := vchain.BuildHistory(t, vchain.HistoryCfg{Idx: 600 + hi, Blocks: nb, Keep: true, Weights: &w, Proto: proto, PName: pname,
+		h := vchain.BuildHistory(t, vchain.HistoryCfg{Idx: 600 + hi, Blocks: nb, Keep: true, Weights: &w, Proto: proto, PName: pname, Echidna: hi%2 == 1,
 			OnBlock: func(p *vchain.Producer, b *block.Block) {
 				rec := &heightRec{scripts: catalogue(p, rr)}
 				for _, s := range rec.scripts {
